@@ -4,7 +4,7 @@
 
 namespace plan
 {
-static const char *KNAMES[K_NKINDS] = {"NTT", "INTT", "ROUNDTRIP", "EXTEND", "MERKLE", "PARCPY", "PARSETZERO", "HOST_ICV", "DELETE_OBJECT"};
+static const char *KNAMES[K_NKINDS] = {"NTT", "INTT", "ROUNDTRIP", "EXTEND", "MERKLE", "PARCPY", "PARSETZERO", "HOST_ICV", "DELETE_OBJECT", "MERKLE_XCHECK"};
 const char *kind_name(int k) { return (k >= 0 && k < K_NKINDS) ? KNAMES[k] : "?"; }
 int kind_from(const std::string &s)
 {
@@ -57,6 +57,10 @@ js::Value Op::to_json() const
     case K_MERKLE:
         v.set("variant", Value::S(VNAMES[variant])).set("rows", Value::U(rows)).set("cols", Value::U(cols)).set("dim", Value::U(dim)).set("batch", Value::U(batch));
         v.set("nthreads", Value::I(nthreads));
+        v.set("input", Value::S(INAMES[input])).set("input_seed", Value::U(input_seed));
+        break;
+    case K_MERKLE_XCHECK:
+        v.set("rows", Value::U(rows)).set("cols", Value::U(cols)).set("dim", Value::U(dim)).set("batch", Value::U(batch)).set("nthreads", Value::I(nthreads));
         v.set("input", Value::S(INAMES[input])).set("input_seed", Value::U(input_seed));
         break;
     case K_PARCPY:
@@ -628,6 +632,25 @@ Plan generate(const std::string &profile, uint64_t seed, const GenLimits &lim)
             g.gen_merkle(o, false);
             p.ops.push_back(o);
         }
+    }
+    else if (profile == "C08X")
+    {
+        // bulk value sweep: one large tree per run, built by every backend, compared with each other
+        Op o;
+        o.kind = K_MERKLE_XCHECK;
+        o.rows = (uint64_t)1 << r.range(7, 10);
+        static const uint64_t c[] = {5, 8, 8, 8, 9, 12, 16, 17, 24};
+        o.cols = r.pick(c);
+        o.dim = r.chance(3, 4) ? 1 : 2;
+        o.batch = r.range(2, 9);
+        o.nthreads = (int)r.range(1, 8);
+        o.input = r.chance(3, 4) ? IN_RAND : IN_RAND64;
+        o.input_seed = r.next();
+        o.sched_seed = r.next();
+        o.garbage_seed = r.next();
+        o.strategy = sim::ST_SERIAL_IDENTITY;
+        p.fault_free = true;
+        p.ops.push_back(o);
     }
     else if (profile == "C17")
     {
